@@ -1115,6 +1115,83 @@ def main():
             reinit_sites.append(("%s.%s is assigned by %s" % (cname, mem, "/".join(where_) if where_ else "NO re-initialiser"), bool(where_)))
         pooled_lean.append((cname, rows))
 
+    # ---- scratch objects: every data member assigned on every path of the (re-)initialising entry function that does not throw
+    def stmts_merged(block):
+        items = split_top(block, ";")
+        out = []
+        for it in items:
+            if re.match(r"else\b", it) and out:
+                out[-1] = out[-1] + " " + it
+            else:
+                out.append(it)
+        return out
+
+    def split_if_chain(st):
+        """'if (c) {..} else if (d) {..} else {..}' -> list of branch bodies, and whether a final else exists"""
+        branches, has_else, rest = [], False, st.strip()
+        while True:
+            m = re.match(r"if\s*\(", rest)
+            if not m:
+                break
+            k, dpt = m.end(), 1
+            while k < len(rest) and dpt:
+                dpt += (rest[k] == "(") - (rest[k] == ")")
+                k += 1
+            body = rest[k:].lstrip()
+            if body.startswith("{"):
+                dpt, j = 0, 0
+                while j < len(body):
+                    dpt += (body[j] == "{") - (body[j] == "}")
+                    if dpt == 0:
+                        break
+                    j += 1
+                branches.append(body[1:j])
+                rest = body[j + 1:].lstrip()
+            else:
+                branches.append(body)
+                rest = ""
+            m2 = re.match(r"else\b\s*", rest)
+            if not m2:
+                break
+            rest = rest[m2.end():]
+            if not rest.startswith("if"):
+                rest = rest.strip()
+                branches.append(rest[1:-1] if rest.startswith("{") and rest.endswith("}") else rest)
+                has_else = True
+                break
+        return branches, has_else
+
+    def all_paths_assign(block, mem):
+        for st in stmts_merged(block):
+            st = st.strip()
+            if re.match(r"if\s*\(", st):
+                branches, has_else = split_if_chain(st)
+                if has_else and all(all_paths_assign(b, mem) for b in branches):
+                    return True
+                continue
+            if re.match(r"(throwException|throw)\b", st):
+                return True           # this path ends in an exception
+            if re.match(r"%s\s*=(?!=)|%s\s*\.\s*(clear|assign|erase|swap)\s*\(" % (mem, mem), st) and "reserve" not in st.split("(")[0]:
+                return True
+        return False
+
+    scratch_path_sites = []
+    for sp_ in spec_all.get("scratch", []):
+        sc = sp_["class"]
+        sfields = [n_ for (n_, _, _) in clang_fields([sc])[sc]]
+        stext = "\n".join(resolve_ifs(strip_comments(read(f_)), defined) for f_ in sp_["files"])
+        for ent in sp_["entry"]:
+            bl = fn_bodies(stext, sc, ent)
+            if not bl:
+                raise TErr("scratch %s: entry function %s not found" % (sc, ent))
+            for mem in sfields:
+                scratch_path_sites.append(("%s.%s is assigned on every non-throwing path of %s()" % (sc, mem, ent),
+                                           all(all_paths_assign(b, mem) for (b, _) in bl)))
+        # every set() overload that takes a resolver goes through the entry function
+        for (b, hd) in fn_bodies(stext, sc, "set"):
+            if "Resolver" in stext[max(0, stext.find(b) - 600):stext.find(b)] or "resolvePrefix" in b:
+                scratch_path_sites.append(("%s::set(…PrefixResolver…) calls %s()" % (sc, sp_["entry"][0]), "resolvePrefix" in b or "initialize" in b))
+
     # ---- caches that outlive a transformation: the key type must carry every input
     key_sites = []
     for ks in key_spec:
@@ -1202,7 +1279,7 @@ def main():
     envcpp = resolve_ifs(strip_comments(read("XPath/XPathEnvSupportDefault.cpp")), defined)
     ub, _, _ = find_body(envcpp, r"\bXPathEnvSupportDefault::updateFunctionTable\s*\((?:[^()]|\([^()]*\))*\)\s*", "XPathEnvSupportDefault::updateFunctionTable")
     setter_ops.append(("XPathEnvSupportDefault::updateFunctionTable: an existing entry is replaced ((*j).second = clone) or erased", 
-                       bool(re.search(r"\(\*j\)\.second\s*=\s*function->clone", ub)) and bool(re.search(r"\.erase\s*\(\s*j\s*\)", ub))))
+                       bool(re.search(r"\(\*j\)\.second\s*=\s*(function->clone|theClone\s*;)", ub)) and bool(re.search(r"\.erase\s*\(\s*j\s*\)", ub))))
     setter_ops.append(("XPathEnvSupportDefault::updateFunctionTable: never uses insert()", not re.search(r"\.\s*insert\s*\(", ub)))
     for fn_, arg in (("installExternalFunctionGlobal", "&function"), ("uninstallExternalFunctionGlobal", "0"),
                      ("installExternalFunctionLocal", "&function"), ("uninstallExternalFunctionLocal", "0")):
@@ -1316,6 +1393,12 @@ def main():
         rows_.append('  ("%s", [%s], [%s])' % (cn_, st_, ids_))
     L.append(",\n".join(rows_))
     L.append("]")
+    L.append("/-- scratch objects of the execution contexts: (what, holds) -- NOT part of a theorem while the defect in resolvePrefix is")
+    L.append("    unrepaired in /repo; the check turns a false entry into an obligation keyed to the known finding -/")
+    L.append("def scratchPathSites : List (String × Bool) := [")
+    L.append(",\n".join('  ("%s", %s)' % (w_.replace('"', "'"), "true" if ok_ else "false") for (w_, ok_) in scratch_path_sites))
+    L.append("]")
+    L.append("def scratchQNameClearsOnUndeclared : Bool := %s" % ("true" if all(ok_ for (_, ok_) in scratch_path_sites) else "false"))
     L.append("/-- configuration setters and the container operation each performs: (what, compatible with last-write-wins) -/")
     L.append("def setterOps : List (String × Bool) := [")
     L.append(",\n".join('  ("%s", %s)' % (w_.replace('"', "'"), "true" if ok_ else "false") for (w_, ok_) in setter_ops))
@@ -1346,7 +1429,7 @@ def main():
         "sticky_written": sticky_written, "order_problems": order_problems,
         "objStackResetZeroesDepth": funcs[("OSC", "zeroes")], "paramSetClearsOther": param_set_clears_other,
         "guard_sites": guard_sites, "scratch_sites": scratch_sites, "guard_classes": guard_classes,
-        "guard_class_problems": guard_class_problems, "stateful_cache_sites": stateful_sites, "reinit_sites": reinit_sites, "setter_ops": setter_ops, "cache_key_sites": key_sites, "uses_icu": uses_icu,
+        "guard_class_problems": guard_class_problems, "stateful_cache_sites": stateful_sites, "reinit_sites": reinit_sites, "setter_ops": setter_ops, "scratch_path_sites": scratch_path_sites, "cache_key_sites": key_sites, "uses_icu": uses_icu,
     }
     with open(out_json, "w") as f:
         json.dump(side, f, indent=1)
